@@ -366,6 +366,15 @@ CONTEXTS = [
     ('branch-taken', False, lambda h: [phase(901, d=[{'emit': [[1, False, False]], 'af': False}]),
                                        {'t': 'branch', 'id': 900, 'cond': ['ALL', [1]], 'c': h + [phase(902)]}, phase(903)]),
     ('after-fail-with-sof', False, lambda h: [phase(901, 'FAIL_AND_CONTINUE')] + h),
+    # checkpoints looking back over what the hole recorded (own subtest only / everything / last record)
+    ('subtest-checkpoint-after-fail', False,
+     lambda h: [{'t': 'subtest', 'id': 900, 'c': [phase(901, 'FAIL_AND_CONTINUE')] + h + [{'t': 'cp', 'id': 907, 'k': 'subtest', 'act': 'FAIL_SUBTEST'},
+                                                                                      phase(902)]}, phase(903)]),
+    ('subtest-checkpoint-after-ok', False,
+     lambda h: [phase(908, 'FAIL_AND_CONTINUE'),
+                {'t': 'subtest', 'id': 900, 'c': [phase(901)] + h + [{'t': 'cp', 'id': 907, 'k': 'subtest', 'act': 'STOP'}, phase(902)]}, phase(903)]),
+    ('all-checkpoint-after', False, lambda h: [phase(901)] + h + [{'t': 'cp', 'id': 907, 'k': 'all', 'act': 'STOP'}, phase(903)]),
+    ('last-checkpoint-after', False, lambda h: [phase(901, 'FAIL_AND_CONTINUE')] + h + [{'t': 'cp', 'id': 907, 'k': 'last', 'act': 'STOP'}, phase(903)]),
 ]
 
 
